@@ -74,6 +74,18 @@ inductive CEv
   | retNode (x : Nat)                      -- returns the raw node `x` (only `cdef DdRef` functions)
   | retNull                                -- `return NULL`
   | raise (exc : String)
+  -- references kept in containers (C arrays, Python dicts, CUDD hash tables); containers are
+  -- numbered in the same space as the nodes of the function
+  | alloc (c : Nat) (fn : String) (size : String)   -- `c = <DdRef *> PyMem_Malloc(size * sizeof(DdRef))`
+  | cnew (c : Nat) (what : String)         -- `c = dict()`: a Python container created by this function
+  | cparam (c : Nat) (what : String)       -- a container received from the caller (`DdRef *vector`, `table: dict`)
+  | store (c : Nat) (x : Nat)              -- `c[i] = x`: one reference of this function on `x` moves to `c`, or `c` borrows
+  | load (x : Nat) (c : Nat)               -- `x = c[i]`: an element of `c` (a node that `c` refers to)
+  | passC (c : Nat) (fn : String)          -- `c` is an argument of the call of `fn` that follows
+  | derefAll (c : Nat) (fn : String) (bound : String)  -- `for i in range(bound): fn(mgr, c[i])`, `for nd in c.values(): fn(mgr, nd)`
+  | free (c : Nat) (fn : String)           -- `PyMem_Free(c)`, `FREE(c)`
+  | refNonPos (x : Nat)                    -- path condition: `x.ref <= 0` (nobody refers to `x`)
+  | setField (x : Nat) (field : String) (y : Nat)   -- `x.next = y`: a pointer field of the node `x`
 deriving Repr, DecidableEq, Inhabited
 
 structure CPath where
